@@ -11,6 +11,7 @@ import (
 
 	"github.com/buchgr/bazel-remote/v2/cache"
 	"google.golang.org/genproto/googleapis/bytestream"
+	"google.golang.org/protobuf/proto"
 
 	pb "github.com/buchgr/bazel-remote/v2/genproto/build/bazel/remote/execution/v2"
 )
@@ -72,6 +73,7 @@ type Up struct {
 	Cuts     []int
 	AbortAt  int
 	Chunks   []*world.Blob // SpliceBlob: the parts (must be uploaded before)
+	ARSize   int64         // AR paths: serialised size of the ActionResult as sent
 	seq      int
 }
 
@@ -253,6 +255,7 @@ func send(c *Ctx, cl *world.Client, u *Up) world.Res {
 			ar.StderrRaw, ar.StderrDigest = u.Payload, d
 		}
 		key := world.HashOf([]byte(fmt.Sprintf("action-%d", u.seq)))
+		u.ARSize = int64(proto.Size(ar))
 		r, _ := cl.UpdateAR("", key, ar)
 		return r
 	case WPFetchNoSRI:
@@ -546,9 +549,17 @@ func judgeUpload(c *Ctx, cl *world.Client, cfg world.NodeCfg, u *Up, before pres
 			return
 		}
 		isAR := u.Path >= WPARFile && u.Path <= WPARStderr
-		if !res.OK && isAR && u.B.Size()+512 > cfg.EffMaxBlob() {
-			// the ActionResult message carrying the blob is itself an item over the limit
+		if isAR && u.ARSize > cfg.EffMaxBlob() {
+			// the ActionResult message carrying the blob is itself an item over
+			// the limit (the server only ever adds to it): it must be refused
 			s.Probe("ar_message_over_limit")
+			if res.OK {
+				s.Violate("C18.reject-over", path+"/ac-entry", "ActionResult of %d serialised bytes accepted with max_blob_size %d", u.ARSize, cfg.MaxBlob)
+			}
+			return
+		}
+		if !res.OK && isAR && u.ARSize+128 > cfg.EffMaxBlob() {
+			s.Probe("ar_message_near_limit") // the server adds worker metadata before storing
 			return
 		}
 		if !res.OK {
